@@ -38,7 +38,7 @@ inductive Top where
   | delete (targets : List Node)
   | exprStmt (v : Node)                                  -- ast.Expr
   | expr (n : Node)                                      -- an expression child of a compound statement
-  | tryStmt (body handlers orelse finalbody : List Top)  -- handlers: `compound "ExceptHandler" …`
+  | tryStmt (body handlers orelse finalbody : List Top)  -- Try / TryStar; handlers: `compound "ExceptHandler" …`
   | compound (kind : Str) (kids : List Top)
 
 structure ModFact where
@@ -209,9 +209,14 @@ def visitAssignment (targets : List Node) (value : Option Node) (s : St) : Res :
 /-! ### the builder -/
 
 /-- the statement kinds whose bodies `RootContextBuilder` descends into (by `register_stmts` on
-the child statements in order). `Try` has a constructor of its own (different order). -/
-def blockKindNames : List String := ["If", "For", "AsyncFor", "While", "With", "AsyncWith"]
-def blockKinds : List Str := blockKindNames.map String.toList
+the child statements in order). `Try` / `TryStar` (`visit_TryStar` delegates to `visit_Try`) have a
+constructor of their own (different order). `Match` since 6e8e4cc. -/
+def blockKindNames : List String := ["If", "For", "AsyncFor", "While", "With", "AsyncWith", "Match"]
+/-- clause nodes (no statement, no visitor of their own) whose `body` a block visitor hands to `register_stmts`:
+since 6e8e4cc `visit_Match` registers `case.body` of every `match_case` in order (the pattern and the guard
+are `Top.expr` kids: ignored). An `ExceptHandler` stays with `tryStmt` / `registerHandlers` (different order). -/
+def clauseKindNames : List String := ["match_case"]
+def blockKinds : List Str := (blockKindNames ++ clauseKindNames).map String.toList
 
 /-- the model's dispatch: which `ast` classes each `Top` constructor stands for in `register`
 (every other class is `compound` with a kind outside `blockKinds`, or `expr`: ignored). Tied to
@@ -220,7 +225,7 @@ def dispatch : List (String × List String) :=
   [("importStmt", ["Import"]), ("importFrom", ["ImportFrom"]),
    ("funcDef", ["FunctionDef", "AsyncFunctionDef"]), ("classDef", ["ClassDef"]),
    ("assign", ["Assign", "AnnAssign", "AugAssign"]), ("assignV on a walrus", ["NamedExpr"]),
-   ("delete", ["Delete"]), ("exprStmt", ["Expr"]), ("tryStmt", ["Try"]), ("compound", blockKindNames)]
+   ("delete", ["Delete"]), ("exprStmt", ["Expr"]), ("tryStmt", ["Try", "TryStar"]), ("compound", blockKindNames)]
 
 /-- the non-AST helper methods named `visit_*` (modelled by `visitAssignment` / `visitImportFrom`). -/
 def helperVisitors : List String :=
@@ -332,6 +337,8 @@ def builderBodies : List (String × List String) :=
    ("visit_AsyncFor", ["self.register_stmts(*node.body, *node.orelse)"]),
    ("visit_While", ["self.register_stmts(*node.body, *node.orelse)"]),
    ("visit_Try", ["self.register_stmts(*node.body, *node.orelse, *node.finalbody, *(stmt for handler in node.handlers for stmt in handler.body))"]),
+   ("visit_TryStar", ["self.visit_Try(node)"]),
+   ("visit_Match", ["self.register_stmts(*(stmt for case in node.cases for stmt in case.body))"]),
    ("visit_With", ["self.register_stmts(*node.body)"]),
    ("visit_AsyncWith", ["self.register_stmts(*node.body)"]),
    ("register_stmts", ["for stmt in stmts: ;     self.register(stmt)"])]
